@@ -230,6 +230,22 @@ fn run_case(rep: &mut Report, drv: &mut Driver, case: &Case) {
             scalar_sample.insert((n.clone(), tg.to_string()), sample_of_ts(&parsed[&text], &tags_of[&text]));
         }
     }
+    // scalar INPUT texts that admit null or undefined (e.g. `unknown`): a degenerate mapping — the statement's
+    // "non-null variables are never null / required" cannot hold for them by the user's own configuration (and the
+    // semantics identifies a missing key with `undefined`); operations that reach such a scalar are outside the
+    // O domain (the theorems carry the same side condition: hnull / habs)
+    let mut degenerate_scalars: BTreeSet<String> = BTreeSet::new();
+    {
+        let probe = Sexp::list(vec![J::Null.to_sexp(), J::Absent.to_sexp()]);
+        let names: Vec<&String> = eff.keys().collect();
+        let qs: Vec<Sexp> = names.iter().map(|n| Sexp::list(vec![Sexp::list(vec![]), parsed[&CfgCase::text_for(&eff[*n], "oi")].clone()])).collect();
+        let a = drv.one(&Sexp::call("ts.table", vec![empty_file.clone(), no_mods.clone(), probe, Sexp::list(qs)]));
+        for (n, row) in names.iter().zip(a.args().iter()) {
+            if row.as_list().map_or(false, |r| r.iter().any(|b| b.as_atom() == Some("true"))) {
+                degenerate_scalars.insert((*n).clone());
+            }
+        }
+    }
     let view = SchemaView { doc: &tsdoc, scalar_sample, optional: case.cfg.optional.unwrap_or(true) };
     let tags: Vec<String> = all_tags.into_iter().collect();
     let base = base_values(&view, &tags);
@@ -262,6 +278,23 @@ fn run_case(rep: &mut Report, drv: &mut Driver, case: &Case) {
             rep.fail("K", "variables:tree", &format!("{alias} differs (model vs code) at {d}"), case.to_json());
         }
         if o.vars.is_empty() {
+            continue;
+        }
+        // scalars reachable from the variable types (through input objects)
+        let mut reach: BTreeSet<String> = BTreeSet::new();
+        let mut todo: Vec<String> = o.vars.iter().map(|v| v.ty.unwrapped().to_string()).collect();
+        while let Some(n) = todo.pop() {
+            if !reach.insert(n.clone()) {
+                continue;
+            }
+            if let Some(t) = tsdoc.type_def(&n) {
+                for f in &t.inputs {
+                    todo.push(f.ty.unwrapped().to_string());
+                }
+            }
+        }
+        if reach.iter().any(|n| degenerate_scalars.contains(n)) {
+            rep.count("outside-O-domain:scalar-input-text-admits-null-or-undefined");
             continue;
         }
         // ---- O: value domain
